@@ -12,6 +12,40 @@ fn do_inv(ctx: &mut Ctx, a: &BigInt, m: &BigInt) {
     });
     ctx.emit("inv", &[a.to_string(), m.to_string()], ans);
 }
+/// the generic `zmod` at machine integers (same specification; overflow near the type's bounds would be a
+/// panic in the dev profile)
+fn do_zmod_machine(ctx: &mut Ctx, x: i128, m: i128, wide: bool) {
+    let ans = if wide {
+        run(|| zmod::<i128>(&x, &m).to_string())
+    } else {
+        let (x, m) = (x as i64, m as i64);
+        run(|| zmod::<i64>(&x, &m).to_string())
+    };
+    ctx.emit(if wide { "zmod.i128" } else { "zmod.i64" }, &[x.to_string(), m.to_string()], ans);
+}
+fn gen_zmod_machine(ctx: &mut Ctx) {
+    let m64 = [1i64, 2, 3, 7, 1 << 31, (1 << 62) - 1, 1 << 62, (1 << 62) + 1, i64::MAX / 2, i64::MAX / 2 + 1, i64::MAX - 1, i64::MAX];
+    let x64 = [0i64, 1, 5, -1, -5, i64::MAX, i64::MAX - 1, i64::MIN + 1, i64::MIN, (1 << 62) + 3, -(1 << 62) - 3];
+    for &m in &m64 {
+        for &x in &x64 {
+            do_zmod_machine(ctx, x as i128, m as i128, false);
+        }
+    }
+    let m128 = [1i128, 3, 1 << 64, (1 << 126) - 1, 1 << 126, i128::MAX / 2 + 1, i128::MAX - 1, i128::MAX];
+    let x128 = [0i128, 1, -1, 5, i128::MAX, i128::MIN + 1, i128::MIN, (1 << 126) + 3, -(1 << 126) - 3];
+    for &m in &m128 {
+        for &x in &x128 {
+            do_zmod_machine(ctx, x, m, true);
+        }
+    }
+    for _ in 0..ctx.pick(200, 3000) {
+        let m = (ctx.rng.next() >> (ctx.rng.below(63) as u32)) as i64 & i64::MAX;
+        let x = ctx.rng.next() as i64;
+        if m > 0 {
+            do_zmod_machine(ctx, x as i128, m as i128, false);
+        }
+    }
+}
 fn do_zmod(ctx: &mut Ctx, x: &BigInt, m: &BigInt) {
     let ans = run(|| zmod::<BigInt>(x, m).to_string());
     ctx.emit("zmod", &[x.to_string(), m.to_string()], ans);
@@ -67,6 +101,13 @@ pub fn replay(ctx: &mut Ctx, f: &[&str]) -> bool {
     match (f[0], f.len()) {
         ("inv", 3) => do_inv(ctx, &parse_int(f[1]), &parse_int(f[2])),
         ("zmod", 3) => do_zmod(ctx, &parse_int(f[1]), &parse_int(f[2])),
+        ("zmod.i64" | "zmod.i128", 3) => {
+            use num::ToPrimitive;
+            match (parse_int(f[1]).to_i128(), parse_int(f[2]).to_i128()) {
+                (Some(x), Some(m)) => do_zmod_machine(ctx, x, m, f[0] == "zmod.i128"),
+                _ => return false,
+            }
+        }
         ("pp", 2) => do_pp(ctx, &parse_int(f[1])),
         ("ispp", 3) => do_ispp(ctx, &parse_int(f[1]), f[2].parse().unwrap()),
         ("kron", 3) => do_kron(ctx, f[1].parse().unwrap(), f[2].parse().unwrap()),
@@ -79,6 +120,7 @@ pub fn replay(ctx: &mut Ctx, f: &[&str]) -> bool {
 }
 
 pub fn generate(ctx: &mut Ctx) {
+    gen_zmod_machine(ctx);
     // modular inverse: exhaustive small box, then random large
     let box_ = ctx.pick(60, 400) as i64;
     for m in 1..=box_ {
